@@ -255,7 +255,7 @@ def run(tier, seed, rng):
     vcases = []
     for W in (2, 3, 4):
         for n in ([1, 2, 3, 5, 8] if tier == 'quick' else [1, 2, 3, 4, 5, 8, 13, 21, 34]):
-            for fn in ('allreduce', 'allreduce_avg', 'allreduce_avg_raw', 'broadcast', 'allreduce_bucketed', 'allreduce_bucketed_avg_raw'):
+            for fn in ('allreduce', 'allreduce_avg', 'allreduce_avg_raw', 'broadcast', 'allreduce_bucketed', 'allreduce_bucketed_avg_raw', 'two_results'):
                 for dt in ('float32', 'float64'):
                     vcases.append({'kind': 'sym_vs_dense', 'W': W, 'n': n, 'fn': fn, 'dtype': dt})
             if W >= 3:
@@ -288,6 +288,16 @@ def run(tier, seed, rng):
                 comm.flush_allreduce_buckets()
             elif fn == 'broadcast':
                 r = comm.broadcast(t, src=W - 1, symmetric=sym)
+            elif fn == 'two_results':
+                # two results of equal shape and dtype but different contents, BOTH still held when they are compared
+                r1 = comm.allreduce(t.clone(), symmetric=sym)          # (the dense allreduce works in place: every call gets its own input)
+                r1 = r1.wait() if hasattr(r1, 'wait') else r1
+                r2 = comm.broadcast(t * 3 + 1, src=0, symmetric=sym)
+                r2 = r2.wait() if hasattr(r2, 'wait') else r2
+                r3 = comm.allreduce_bucketed(t + 2, symmetric=sym)
+                comm.flush_allreduce_buckets()
+                r3 = r3.wait() if hasattr(r3, 'wait') else r3
+                return [(list(x.shape), str(x.dtype), x.reshape(-1).tolist()) for x in (r1, r2, r3)]
             elif fn == 'broadcast_sub':
                 grp = torch.distributed.new_group(list(range(1, W)))
                 if rank == 0:
